@@ -88,7 +88,6 @@ theorem chainStep_log {P} (O : Oracles P) (prov : EventProvider) (caFuel : Nat) 
       unfold fetchNeeded
       by_cases hn : (needOf st.m curr).isEmpty = true
       · simp only [hn, if_true]
-        rw [checkAllowed_log O (some prov) caFuel curr _ log]
         cases hc : (checkAllowed O (some prov) caFuel curr (putAll [] st.m) []) with
         | mk v rest2 =>
           obtain ⟨m2, lg2⟩ := rest2
@@ -98,8 +97,6 @@ theorem chainStep_log {P} (O : Oracles P) (prov : EventProvider) (caFuel : Nat) 
         | error => simp [ChainStep.pre]
         | events es =>
           simp only
-          rw [checkAllowed_log O (some prov) caFuel curr _ (log ++ [Call.events (needOf st.m curr)]),
-              checkAllowed_log O (some prov) caFuel curr _ ([] ++ [Call.events (needOf st.m curr)])]
           cases hc : (checkAllowed O (some prov) caFuel curr (putAll es st.m) []) with
           | mk v rest2 =>
             obtain ⟨m2, lg2⟩ := rest2
